@@ -5,12 +5,17 @@ from pyvc.spec import *
 
 H = "xgi/core/hypergraph.py::Hypergraph."
 STRUCT = ("C01",)
+ALL = ("C01", "C04", "C05")
+
+
+def G(label, props, f):
+    return (label, props, f)
 
 
 def std(s, kinds=("H",)):
     """UInv in, UInv on every exit; Fresh in, Fresh on every exit."""
-    s.req("UInv", lambda c, A: UInv(c, A.S0))
-    s.req("Fresh", lambda c, A: Fresh(c, A.S0))
+    s.req("UInv", lambda c, A: UInv(c, A.S0), ("C01",))
+    s.req("Fresh", lambda c, A: Fresh(c, A.S0), ("C04",))
     s.ens_all("UInv", ("C01",), lambda c, A, R: UInv(c, R.S))
     s.ens_all("Fresh", ("C04",), lambda c, A, R: Fresh(c, R.S))
     return s
@@ -38,23 +43,23 @@ def _add_edge_loop(c, A, K):
     u = _uid_term(c, K)
     done = K.done
     auto = A.idx.term == c.NONE
-    return z3.And(
-        c.forall(["id", "id"], lambda n, e: z3.And(sel(S.nk, n), sel(S.N, n, e)) == z3.And(sel(S.ek, e), sel(S.E, e, n))),
-        S.nk == S.nak, S.eak == S0.eak, S.ek == c.add(S0.ek, u), z3.Not(sel(S0.ek, u)), u != c.NONE,
-        z3.Not(sel(S.nk, c.NONE)),
-        sel(S.E, u) == done,
-        K.content == K.ex.tset(K.L("members")),
-        S.nk == c.union(S0.nk, done),
-        c.forall(["id"], lambda e: z3.Implies(sel(S0.ek, e), z3.And(sel(S.E, e) == sel(S0.E, e)))),
-        c.forall(["id"], lambda e: z3.Implies(sel(S0.eak, e), z3.And(sel(S.EAh, e) == sel(S0.EAh, e), sel(S.EAv, e) == sel(S0.EAv, e)))),
-        c.forall(["id"], lambda n: z3.Implies(sel(S.nk, n), sel(S.N, n) == z3.If(
-            sel(S0.nk, n), z3.If(sel(done, n), c.add(sel(S0.N, n), u), sel(S0.N, n)), c.single(u)))),
-        c.forall(["id"], lambda n: z3.Implies(sel(S0.nak, n), z3.And(sel(S.NAh, n) == sel(S0.NAh, n), sel(S.NAv, n) == sel(S0.NAv, n)))),
-        S.uid == z3.If(auto, S0.uid + 1, S0.uid),
-        z3.Implies(auto, u == c.of_int(S0.uid)),
-        z3.Implies(z3.Not(auto), u == A.idx.term),
-        S.neth == S0.neth, S.netv == S0.netv,
-    )
+    return [
+        G("entry", ALL, z3.And(UInv(c, S0), Fresh(c, S0), K.content == K.ex.tset(K.L("members")),
+                               z3.Not(sel(K.content, c.NONE)), z3.Not(sel(S0.ek, u)), u != c.NONE,
+                               z3.Implies(auto, u == c.of_int(S0.uid)), z3.Implies(z3.Not(auto), u == A.idx.term))),
+        G("struct", ("C01",), z3.And(
+            two_way(c, S), S.nk == S.nak, S.eak == S0.eak, S.ek == c.add(S0.ek, u), z3.Not(sel(S.nk, c.NONE)))),
+        G("counter", ("C04",), S.uid == z3.If(auto, S0.uid + 1, S0.uid)),
+        G("kept", ("C04",), z3.And(
+            c.forall(["id"], lambda e: z3.Implies(sel(S0.ek, e), z3.And(sel(S.E, e) == sel(S0.E, e)))),
+            c.forall(["id"], lambda e: z3.Implies(sel(S0.eak, e), z3.And(sel(S.EAh, e) == sel(S0.EAh, e), sel(S.EAv, e) == sel(S0.EAv, e)))))),
+        G("effect", ("C05",), z3.And(
+            sel(S.E, u) == done, S.nk == c.union(S0.nk, done),
+            c.forall(["id"], lambda n: z3.Implies(sel(S.nk, n), sel(S.N, n) == z3.If(
+                sel(S0.nk, n), z3.If(sel(done, n), c.add(sel(S0.N, n), u), sel(S0.N, n)), c.single(u)))),
+            c.forall(["id"], lambda n: z3.Implies(sel(S0.nak, n), z3.And(sel(S.NAh, n) == sel(S0.NAh, n), sel(S.NAv, n) == sel(S0.NAv, n)))),
+            S.neth == S0.neth, S.netv == S0.netv)),
+    ]
 
 
 s = std(contract(H + "add_edge", [("self", "net:H"), ("members", "val"), ("idx", "val"), ("attr", "kwattr")]))
@@ -63,3 +68,375 @@ s.ens_all("existing-edges-kept", ("C04",), lambda c, A, R: edges_kept(c, A.S0, R
 s.ens("refuse-existing-id", ("C04",), lambda c, A, R: z3.Implies(sel(A.S0.ek, A.idx.term), z3.And(same_state(c, A.S0, R.S), R.S.warned)))
 s.exc("TypeError")
 s.exc("XGIError")
+
+
+# ------------------------------------------------------------------ shared frame helpers
+def attrs_same(c, S, S0):
+    return z3.And(
+        S.nak == S0.nak, S.eak == S0.eak,
+        c.forall(["id"], lambda n: z3.Implies(sel(S0.nak, n), z3.And(sel(S.NAh, n) == sel(S0.NAh, n), sel(S.NAv, n) == sel(S0.NAv, n)))),
+        c.forall(["id"], lambda e: z3.Implies(sel(S0.eak, e), z3.And(sel(S.EAh, e) == sel(S0.EAh, e), sel(S.EAv, e) == sel(S0.EAv, e)))))
+
+
+def node_attrs_same_on(c, S, S0):
+    """attribute records of nodes that existed at entry are unchanged (key sets may differ)"""
+    return c.forall(["id"], lambda n: z3.Implies(z3.And(sel(S0.nak, n), sel(S.nak, n)), z3.And(sel(S.NAh, n) == sel(S0.NAh, n), sel(S.NAv, n) == sel(S0.NAv, n))))
+
+
+def edge_attrs_same_on(c, S, S0):
+    return c.forall(["id"], lambda e: z3.Implies(z3.And(sel(S0.eak, e), sel(S.eak, e)), z3.And(sel(S.EAh, e) == sel(S0.EAh, e), sel(S.EAv, e) == sel(S0.EAv, e))))
+
+
+def net_same(c, S, S0):
+    return z3.And(S.uid == S0.uid, S.neth == S0.neth, S.netv == S0.netv)
+
+
+def two_way(c, S):
+    return c.forall(["id", "id"], lambda n, e: z3.And(sel(S.nk, n), sel(S.N, n, e)) == z3.And(sel(S.ek, e), sel(S.E, e, n)))
+
+
+# ------------------------------------------------------------------ remove_edge
+def _remove_edge_loop(c, A, K):
+    S, S0 = K.S, A.S0
+    e = A.idx.term
+    return z3.And(
+        UInv(c, S0), sel(S0.ek, e),
+        K.content == sel(S0.E, e),
+        S.nk == S0.nk, S.ek == S0.ek, attrs_same(c, S, S0), net_same(c, S, S0),
+        c.forall(["id"], lambda f: z3.Implies(sel(S0.ek, f), sel(S.E, f) == sel(S0.E, f))),
+        c.forall(["id"], lambda n: z3.Implies(sel(S0.nk, n), sel(S.N, n) == z3.If(sel(K.done, n), c.rem(sel(S0.N, n), e), sel(S0.N, n)))))
+
+
+def _remove_edge_effect(c, A, R):
+    S, S0 = R.S, A.S0
+    e = A.idx.term
+    return z3.And(
+        S.ek == c.rem(S0.ek, e), S.nk == S0.nk, net_same(c, S, S0),
+        c.forall(["id"], lambda f: z3.Implies(sel(S.ek, f), sel(S.E, f) == sel(S0.E, f))),
+        c.forall(["id"], lambda n: z3.Implies(sel(S0.nk, n), sel(S.N, n) == c.rem(sel(S0.N, n), e))),
+        node_attrs_same_on(c, S, S0), edge_attrs_same_on(c, S, S0))
+
+
+s = std(contract(H + "remove_edge", [("self", "net:H"), ("idx", "val")]))
+s.loop("for node in self._edge[idx].copy()", _remove_edge_loop)
+s.ens("effect", ("C05",), _remove_edge_effect)
+s.exc("IDNotFound", "missing-id", ("C05",), lambda c, A, R: z3.And(z3.Not(sel(A.S0.ek, A.idx.term)), same_state(c, A.S0, R.S)))
+s.exc("TypeError", "unhashable-id", ("C05",), lambda c, A, R: z3.And(z3.Not(c.hashable(A.idx.term)), same_state(c, A.S0, R.S)))
+
+
+# ------------------------------------------------------------------ add_node_to_edge
+s = std(contract(H + "add_node_to_edge", [("self", "net:H"), ("edge", "val"), ("node", "val")]))
+s.ens_all("existing-edges-kept-or-grown", ("C04",), lambda c, A, R: c.forall(["id"], lambda e: z3.Implies(
+    z3.And(sel(A.S0.ek, e), e != A.edge.term), z3.And(sel(R.S.ek, e), sel(R.S.E, e) == sel(A.S0.E, e)))))
+s.ens("effect", ("C05",), lambda c, A, R: z3.And(
+    R.S.ek == c.add(A.S0.ek, A.edge.term), R.S.nk == c.add(A.S0.nk, A.node.term),
+    sel(R.S.E, A.edge.term) == c.add(z3.If(sel(A.S0.ek, A.edge.term), sel(A.S0.E, A.edge.term), c.EMPTY), A.node.term),
+    sel(R.S.N, A.node.term) == c.add(z3.If(sel(A.S0.nk, A.node.term), sel(A.S0.N, A.node.term), c.EMPTY), A.edge.term),
+    c.forall(["id"], lambda e: z3.Implies(z3.And(sel(A.S0.ek, e), e != A.edge.term), sel(R.S.E, e) == sel(A.S0.E, e))),
+    c.forall(["id"], lambda n: z3.Implies(z3.And(sel(A.S0.nk, n), n != A.node.term), sel(R.S.N, n) == sel(A.S0.N, n))),
+    node_attrs_same_on(c, R.S, A.S0), edge_attrs_same_on(c, R.S, A.S0)))
+s.exc("XGIError")
+s.exc("TypeError")
+
+
+# ------------------------------------------------------------------ remove_node_from_edge
+def _rnfe_effect(c, A, R):
+    S, S0 = R.S, A.S0
+    e, n = A.edge.term, A.node.term
+    gone = z3.And(A.remove_empty.term, sel(S0.E, e) == c.single(n))
+    return z3.And(
+        S.nk == S0.nk, S.ek == z3.If(gone, c.rem(S0.ek, e), S0.ek), net_same(c, S, S0),
+        z3.Implies(z3.Not(gone), sel(S.E, e) == c.rem(sel(S0.E, e), n)),
+        sel(S.N, n) == c.rem(sel(S0.N, n), e),
+        c.forall(["id"], lambda f: z3.Implies(z3.And(sel(S.ek, f), f != e), sel(S.E, f) == sel(S0.E, f))),
+        c.forall(["id"], lambda m: z3.Implies(z3.And(sel(S.nk, m), m != n), sel(S.N, m) == sel(S0.N, m))),
+        node_attrs_same_on(c, S, S0), edge_attrs_same_on(c, S, S0))
+
+
+s = std(contract(H + "remove_node_from_edge", [("self", "net:H"), ("edge", "val"), ("node", "val"), ("remove_empty", "bool", True)]))
+s.ens("effect", ("C05",), _rnfe_effect)
+s.exc("XGIError", "rejected", ("C05",), lambda c, A, R: z3.And(
+    z3.Or(z3.Not(sel(A.S0.ek, A.edge.term)), z3.Not(sel(A.S0.nk, A.node.term)), z3.Not(sel(A.S0.E, A.edge.term, A.node.term))),
+    same_state(c, A.S0, R.S)))
+s.exc("TypeError", "unhashable", ("C05",), lambda c, A, R: same_state(c, A.S0, R.S))
+
+
+# ------------------------------------------------------------------ clear / clear_edges
+s = std(contract(H + "clear", [("self", "net:H"), ("remove_net_attr", "bool", True)]))
+s.ens("effect", ("C05",), lambda c, A, R: z3.And(
+    R.S.nk == c.EMPTY, R.S.ek == c.EMPTY, R.S.nak == c.EMPTY, R.S.eak == c.EMPTY, R.S.uid == A.S0.uid,
+    z3.If(A.remove_net_attr.term, R.S.neth == c.EMPTY, z3.And(R.S.neth == A.S0.neth, R.S.netv == A.S0.netv))))
+
+
+def _clear_edges_loop(c, A, K):
+    S, S0 = K.S, A.S0
+    return z3.And(S.nk == S0.nk, S.ek == S0.ek, attrs_same(c, S, S0), net_same(c, S, S0), UInv(c, S0), Fresh(c, S0),
+                  c.forall(["id"], lambda n: z3.Implies(z3.And(sel(S.nk, n), sel(K.done, n)), sel(S.N, n) == c.EMPTY)))
+
+
+s = std(contract(H + "clear_edges", [("self", "net:H")]))
+s.loop("for node in self.nodes", _clear_edges_loop)
+s.ens("effect", ("C05",), lambda c, A, R: z3.And(
+    R.S.nk == A.S0.nk, R.S.ek == c.EMPTY, R.S.eak == c.EMPTY, net_same(c, R.S, A.S0),
+    c.forall(["id"], lambda n: z3.Implies(sel(R.S.nk, n), sel(R.S.N, n) == c.EMPTY)),
+    node_attrs_same_on(c, R.S, A.S0), R.S.nak == A.S0.nak))
+
+
+# ------------------------------------------------------------------ remove_node
+def _rn_common(c, S, S0, n):
+    return z3.And(UInv(c, S0), Fresh(c, S0), sel(S0.nk, n),
+                  S.nk == c.rem(S0.nk, n), S.nak == c.rem(S0.nak, n), net_same(c, S, S0),
+                  node_attrs_same_on(c, S, S0), edge_attrs_same_on(c, S, S0))
+
+
+def _rn_strong_outer(c, A, K):
+    S, S0, n, D = K.S, A.S0, A.n.term, K.done
+    return z3.And(
+        _rn_common(c, S, S0, n), K.content == sel(S0.N, n),
+        c.forall(["id"], lambda f: sel(S.ek, f) == z3.And(sel(S0.ek, f), z3.Not(sel(D, f)))), S.eak == S.ek,
+        c.forall(["id"], lambda f: z3.Implies(sel(S.ek, f), sel(S.E, f) == sel(S0.E, f))),
+        c.forall(["id"], lambda m: z3.Implies(sel(S.nk, m), sel(S.N, m) == c.diff(sel(S0.N, m), D))))
+
+
+def _rn_strong_inner(c, A, K):
+    S, S0, n, D2 = K.S, A.S0, A.n.term, K.done
+    O = K.outer
+    D, e = O.done, O.x
+    return z3.And(
+        _rn_common(c, S, S0, n), O.content == sel(S0.N, n), c.subset(D, O.content), sel(O.content, e), z3.Not(sel(D, e)),
+        K.content == c.diff(sel(S0.E, e), c.single(n)),
+        c.forall(["id"], lambda f: sel(S.ek, f) == z3.And(sel(S0.ek, f), z3.Not(sel(D, f)), f != e)), S.eak == S.ek,
+        c.forall(["id"], lambda f: z3.Implies(sel(S.ek, f), sel(S.E, f) == sel(S0.E, f))),
+        c.forall(["id"], lambda m: z3.Implies(sel(S.nk, m), sel(S.N, m) == z3.If(
+            sel(D2, m), c.rem(c.diff(sel(S0.N, m), D), e), c.diff(sel(S0.N, m), D)))))
+
+
+def _rn_weak(c, A, K):
+    S, S0, n, D = K.S, A.S0, A.n.term, K.done
+    gone = lambda f: z3.And(sel(D, f), A.remove_empty.term, sel(S0.E, f) == c.single(n))
+    return z3.And(
+        _rn_common(c, S, S0, n), K.content == sel(S0.N, n),
+        c.forall(["id"], lambda f: sel(S.ek, f) == z3.And(sel(S0.ek, f), z3.Not(gone(f)))), S.eak == S.ek,
+        c.forall(["id"], lambda f: z3.Implies(sel(S.ek, f), sel(S.E, f) == z3.If(sel(D, f), c.rem(sel(S0.E, f), n), sel(S0.E, f)))),
+        c.forall(["id"], lambda m: z3.Implies(sel(S.nk, m), sel(S.N, m) == sel(S0.N, m))))
+
+
+def _rn_effect(c, A, R):
+    S, S0, n = R.S, A.S0, A.n.term
+    Nn = sel(S0.N, n)
+    strong = z3.And(
+        c.forall(["id"], lambda f: sel(S.ek, f) == z3.And(sel(S0.ek, f), z3.Not(sel(Nn, f)))),
+        c.forall(["id"], lambda f: z3.Implies(sel(S.ek, f), sel(S.E, f) == sel(S0.E, f))),
+        c.forall(["id"], lambda m: z3.Implies(sel(S.nk, m), sel(S.N, m) == c.diff(sel(S0.N, m), Nn))))
+    weak = z3.And(
+        c.forall(["id"], lambda f: sel(S.ek, f) == z3.And(sel(S0.ek, f), z3.Not(z3.And(
+            A.remove_empty.term, sel(Nn, f), sel(S0.E, f) == c.single(n))))),
+        c.forall(["id"], lambda f: z3.Implies(sel(S.ek, f), sel(S.E, f) == c.rem(sel(S0.E, f), n))),
+        c.forall(["id"], lambda m: z3.Implies(sel(S.nk, m), sel(S.N, m) == sel(S0.N, m))))
+    return z3.And(S.nk == c.rem(S0.nk, n), net_same(c, S, S0), node_attrs_same_on(c, S, S0), edge_attrs_same_on(c, S, S0),
+                  z3.If(A.strong.term, strong, weak))
+
+
+s = std(contract(H + "remove_node", [("self", "net:H"), ("n", "val"), ("strong", "bool", False), ("remove_empty", "bool", True)]))
+s.loop("for e in edge_neighbors", _rn_strong_outer)
+s.loop("for node in node_neighbors.difference({n})", _rn_strong_inner)
+s.loop("for edge in edge_neighbors", _rn_weak)
+s.ens("effect", ("C05",), _rn_effect)
+s.exc("IDNotFound", "missing-id", ("C05",), lambda c, A, R: z3.And(z3.Not(sel(A.S0.nk, A.n.term)), same_state(c, A.S0, R.S)))
+s.exc("TypeError", "unhashable-id", ("C05",), lambda c, A, R: z3.And(z3.Not(c.hashable(A.n.term)), same_state(c, A.S0, R.S)))
+
+
+# ------------------------------------------------------------------ bulk node operations
+def _edges_untouched(c, S, S0):
+    return z3.And(S.ek == S0.ek, S.eak == S0.eak, net_same(c, S, S0),
+                  c.forall(["id"], lambda e: z3.Implies(sel(S0.ek, e), sel(S.E, e) == sel(S0.E, e))),
+                  edge_attrs_same_on(c, S, S0))
+
+
+def _nodes_only_added(c, S, S0):
+    return z3.And(c.subset(S0.nk, S.nk),
+                  c.forall(["id"], lambda n: z3.Implies(sel(S.nk, n), sel(S.N, n) == z3.If(sel(S0.nk, n), sel(S0.N, n), c.EMPTY))))
+
+
+def _anf_inv(c, A, K):
+    S, S0 = K.S, A.S0
+    return z3.And(UInv(c, S), Fresh(c, S), _edges_untouched(c, S, S0), _nodes_only_added(c, S, S0))
+
+
+s = std(contract(H + "add_nodes_from", [("self", "net:H"), ("nodes_for_adding", "val"), ("attr", "kwattr")]))
+s.loop("for n in nodes_for_adding", _anf_inv)
+s.ens_all("edges-untouched", ("C04", "C05"), lambda c, A, R: _edges_untouched(c, R.S, A.S0))
+s.ens_all("nodes-only-added", ("C05",), lambda c, A, R: _nodes_only_added(c, R.S, A.S0))
+s.exc("XGIError")
+s.exc("TypeError")
+s.exc("ValueError")
+
+
+def _only_removed(c, S, S0):
+    """Nothing is added or grown: keys shrink, member sets shrink, attribute records of survivors stay."""
+    return z3.And(c.subset(S.nk, S0.nk), c.subset(S.ek, S0.ek), net_same(c, S, S0),
+                  c.forall(["id"], lambda e: z3.Implies(sel(S.ek, e), c.subset(sel(S.E, e), sel(S0.E, e)))),
+                  c.forall(["id"], lambda n: z3.Implies(sel(S.nk, n), c.subset(sel(S.N, n), sel(S0.N, n)))),
+                  node_attrs_same_on(c, S, S0), edge_attrs_same_on(c, S, S0))
+
+
+def _rnf_inv(c, A, K):
+    S, S0 = K.S, A.S0
+    return z3.And(UInv(c, S), Fresh(c, S), _only_removed(c, S, S0),
+                  c.forall(["id"], lambda n: z3.Implies(sel(K.done, n), z3.Not(sel(S.nk, n)))))
+
+
+def frozen_exc(s):
+    """A frozen instance shadows its direct mutators: a method that calls one of them raises XGIError."""
+    s.exc("XGIError", "only-when-frozen", ("C18",), lambda c, A, R: A.S0.shadow != c.EMPTY)
+    return s
+
+
+s = std(contract(H + "remove_nodes_from", [("self", "net:H"), ("nodes", "val"), ("strong", "bool", False), ("remove_empty", "bool", True)]))
+s.loop("for n in nodes", _rnf_inv)
+s.ens_all("only-removes", ("C05",), lambda c, A, R: _only_removed(c, R.S, A.S0))
+s.ens("listed-nodes-gone", ("C05",), lambda c, A, R: c.forall(["id"], lambda n: z3.Implies(
+    z3.And(sel(c.content(A.nodes.term), n), z3.Not(c.one_shot(A.nodes.term))), z3.Not(sel(R.S.nk, n)))))
+s.exc("TypeError")
+frozen_exc(s)
+
+
+def _ref_inv(c, A, K):
+    S, S0 = K.S, A.S0
+    return z3.And(UInv(c, S), Fresh(c, S), _only_removed(c, S, S0), S.nk == S0.nk)
+
+
+def _ref_inner(c, A, K):
+    S, S0 = K.S, A.S0
+    e = K.outer.x
+    return z3.And(
+        c.forall(["id", "id"], lambda n, f: z3.Implies(f != e, z3.And(sel(S.nk, n), sel(S.N, n, f)) == z3.And(sel(S.ek, f), sel(S.E, f, n)))),
+        c.forall(["id"], lambda n: z3.And(sel(S.nk, n), sel(S.N, n, e)) == z3.And(sel(S.E, e, n), z3.Not(sel(K.done, n)))),
+        c.forall(["id"], lambda n: z3.Implies(sel(S.E, e, n), sel(S.nk, n))),
+        K.content == sel(S.E, e), sel(S.ek, e),
+        S.nk == S.nak, S.ek == S.eak, z3.Not(sel(S.nk, c.NONE)), z3.Not(sel(S.ek, c.NONE)),
+        Fresh(c, S), _only_removed(c, S, S0), S.nk == S0.nk)
+
+
+s = std(contract(H + "remove_edges_from", [("self", "net:H"), ("ebunch", "val")]))
+s.loop("for idx in ebunch", _ref_inv)
+s.loop("for node in self._edge[idx].copy()", _ref_inner)
+s.ens_all("only-removes", ("C05",), lambda c, A, R: z3.And(_only_removed(c, R.S, A.S0), R.S.nk == A.S0.nk))
+s.exc("TypeError")
+s.exc("IDNotFound")
+
+
+# ------------------------------------------------------------------ attribute setters
+def _structure_same(c, S, S0):
+    return z3.And(S.nk == S0.nk, S.ek == S0.ek, S.nak == S0.nak, S.eak == S0.eak, net_same(c, S, S0),
+                  c.forall(["id"], lambda n: z3.Implies(sel(S0.nk, n), sel(S.N, n) == sel(S0.N, n))),
+                  c.forall(["id"], lambda e: z3.Implies(sel(S0.ek, e), sel(S.E, e) == sel(S0.E, e))))
+
+
+def _sna_inv(c, A, K):
+    S, S0 = K.S, A.S0
+    return z3.And(UInv(c, S0), Fresh(c, S0), _structure_same(c, S, S0), edge_attrs_same_on(c, S, S0))
+
+
+s = std(contract(H + "set_node_attributes", [("self", "net:H"), ("values", "val"), ("name", "val", None)]))
+s.loop("for n, v in values.items()", _sna_inv)
+s.loop("for n in self", _sna_inv)
+s.loop("for n, d in values.items()", _sna_inv)
+s.ens_all("structure-unchanged", ("C05",), lambda c, A, R: z3.And(_structure_same(c, R.S, A.S0), edge_attrs_same_on(c, R.S, A.S0)))
+s.exc("XGIError")
+s.exc("TypeError")
+
+
+def _sea_inv(c, A, K):
+    S, S0 = K.S, A.S0
+    return z3.And(UInv(c, S0), Fresh(c, S0), _structure_same(c, S, S0), node_attrs_same_on(c, S, S0))
+
+
+s = std(contract(H + "set_edge_attributes", [("self", "net:H"), ("values", "val"), ("name", "val", None)]))
+s.loop("for e, value in values.items()", _sea_inv)
+s.loop("for e in self._edge", _sea_inv)
+s.loop("for e, d in values.items()", _sea_inv)
+s.ens_all("structure-unchanged", ("C05",), lambda c, A, R: z3.And(_structure_same(c, R.S, A.S0), node_attrs_same_on(c, R.S, A.S0)))
+s.exc("XGIError")
+s.exc("TypeError")
+s.exc("ValueError")
+
+
+# ------------------------------------------------------------------ double_edge_swap
+def _des_effect(c, A, R):
+    S, S0 = R.S, A.S0
+    n1, n2, e1, e2 = A.n_id1.term, A.n_id2.term, A.e_id1.term, A.e_id2.term
+    return z3.And(
+        S.nk == S0.nk, S.ek == S0.ek, attrs_same(c, S, S0), net_same(c, S, S0),
+        c.forall(["id"], lambda n: z3.Implies(sel(S.nk, n), c.card(sel(S.N, n)) == c.card(sel(S0.N, n)))),
+        c.forall(["id"], lambda e: z3.Implies(sel(S.ek, e), c.card(sel(S.E, e)) == c.card(sel(S0.E, e)))),
+        c.forall(["id"], lambda n: z3.Implies(z3.And(sel(S.nk, n), n != n1, n != n2), sel(S.N, n) == sel(S0.N, n))),
+        c.forall(["id"], lambda e: z3.Implies(z3.And(sel(S.ek, e), e != e1, e != e2), sel(S.E, e) == sel(S0.E, e))),
+        z3.Implies(z3.And(e1 != e2, n1 != n2), z3.And(
+            sel(S.E, e1) == c.add(c.rem(sel(S0.E, e1), n1), n2), sel(S.E, e2) == c.add(c.rem(sel(S0.E, e2), n2), n1),
+            sel(S.N, n1) == c.add(c.rem(sel(S0.N, n1), e1), e2), sel(S.N, n2) == c.add(c.rem(sel(S0.N, n2), e2), e1))))
+
+
+s = std(contract(H + "double_edge_swap", [("self", "net:H"), ("n_id1", "val"), ("n_id2", "val"), ("e_id1", "val"), ("e_id2", "val")]))
+s.ens("effect", ("C05",), _des_effect)
+s.exc("IDNotFound", "state-unchanged", ("C05",), lambda c, A, R: same_state(c, A.S0, R.S))
+s.exc("XGIError", "state-unchanged", ("C05",), lambda c, A, R: same_state(c, A.S0, R.S))
+s.exc("TypeError", "state-unchanged", ("C05",), lambda c, A, R: same_state(c, A.S0, R.S))
+
+
+# ------------------------------------------------------------------ update
+s = std(contract(H + "update", [("self", "net:H"), ("edges", "val", None), ("nodes", "val", None)]))
+s.ens_all("existing-edges-kept", ("C04",), lambda c, A, R: edges_kept(c, A.S0, R.S))
+s.exc("XGIError")
+s.exc("TypeError")
+s.exc("ValueError")
+s.exc("IndexError")
+s.exc("KeyError")
+s.exc("AttributeError")
+
+
+# ------------------------------------------------------------------ add_edges_from
+def _nodes_grow(c, S, S0):
+    """Old nodes stay, their memberships only grow, their attribute records are untouched."""
+    return z3.And(c.subset(S0.nk, S.nk),
+                  c.forall(["id"], lambda n: z3.Implies(sel(S0.nk, n), c.subset(sel(S0.N, n), sel(S.N, n)))),
+                  node_attrs_same_on(c, S, S0), S.neth == S0.neth, S.netv == S0.netv)
+
+
+def _aef_outer(c, A, K):
+    S, S0 = K.S, A.S0
+    return z3.And(UInv(c, S), Fresh(c, S), edges_kept(c, S0, S), _nodes_grow(c, S, S0), S.uid >= S0.uid)
+
+
+def _aef_inner(c, A, K):
+    """Edge e = idx is stored with its full member set; memberships registered for `done` only."""
+    S, S0 = K.S, A.S0
+    e = K.ex.tid(K.L("idx"))
+    D = K.done
+    return z3.And(
+        c.forall(["id", "id"], lambda n, f: z3.Implies(f != e, z3.And(sel(S.nk, n), sel(S.N, n, f)) == z3.And(sel(S.ek, f), sel(S.E, f, n)))),
+        c.forall(["id"], lambda n: z3.And(sel(S.nk, n), sel(S.N, n, e)) == sel(D, n)),
+        K.content == sel(S.E, e), sel(S.ek, e), z3.Not(sel(S.eak, e)), z3.Not(sel(S0.ek, e)), e != c.NONE,
+        z3.Not(sel(sel(S.E, e), c.NONE)),
+        S.nk == S.nak, c.forall(["id"], lambda f: sel(S.eak, f) == z3.And(sel(S.ek, f), f != e)),
+        z3.Not(sel(S.nk, c.NONE)), z3.Not(sel(S.ek, c.NONE)),
+        c.forall(["id"], lambda f: z3.Implies(z3.And(sel(S.ek, f), f != e, c.intlike(f)), c.int_of(f) < S.uid)),
+        edges_kept(c, S0, S), _nodes_grow(c, S, S0), S.uid >= S0.uid)
+
+
+def _aef_inner_auto(c, A, K):
+    """Formats 1-4: as above, and an automatic id (formats 1, 3) is already below the counter."""
+    e = K.ex.tid(K.L("idx"))
+    auto = z3.Or(K.ex.truth(K.L("format1")), K.ex.truth(K.L("format3")))
+    return z3.And(_aef_inner(c, A, K), z3.Implies(z3.And(auto, c.intlike(e)), c.int_of(e) < K.S.uid))
+
+
+s = std(contract(H + "add_edges_from", [("self", "net:H"), ("ebunch_to_add", "val"), ("attr", "kwattr")]))
+s.loop("for idx, members in ebunch_to_add.items()", _aef_outer)
+s.loop("for n in members", _aef_inner)
+s.loop("while True", _aef_outer)
+s.loop("for n in members", _aef_inner_auto)
+s.ens_all("existing-edges-kept", ("C04",), lambda c, A, R: edges_kept(c, A.S0, R.S))
+s.ens_all("nodes-grow", ("C05",), lambda c, A, R: _nodes_grow(c, R.S, A.S0))
+for e_ in ("XGIError", "TypeError", "ValueError", "IndexError", "UnboundLocalError"):
+    s.exc(e_)
